@@ -27,12 +27,18 @@ def run(rep: Report, tier: str, only=None) -> None:
 	for b, n in enumerate(BASE_TOKENS):
 		for lo in range(0, n, step):
 			closed.append((f'O5.mutation.b{b}', P, 'mutation_closed', {'base': b, 'range': [lo, min(lo + step, n)], 'pool': pool}, f'token-level mutations of a valid program ({n} tokens): delete / duplicate / swap-with-next at every token, replace every token by each of {pool} tokens (brackets, colon, comma, dot, newline + indentation changes, keywords, quotes); complete real pipeline and ErrorRender (closed, enumerated)'))
+	for k in range(8):
+		closed.append(('O6.ondisk', P, 'ondisk_closed', {'slice': [k, 8]}, '453 ill-typed programs (type / expression fillings of 11 templates + 6 hand-picked cyclic / destructuring programs) as a module on a scratch file system with the cache enabled, first run and second run (closed, enumerated)'))
+	for k in range(2):
+		closed.append(('O7.deep', P, 'deep_closed', {'slice': [k, 2]}, '26 deeply nested / very long inputs (brackets, parentheses, sums, attribute chains, unary signs up to 3000; 90 nested blocks; 400 elif; 600 nested calls): the pipeline returns with success or an application error that renders (closed, enumerated)'))
+	for k in range(2):
+		closed.append(('O8.interactive', P, 'interactive_closed', {'slice': [k, 2]}, 'the real Interactive.run with the terminal replaced: every history [x, y, valid] over 9 inputs (2 valid, unparsable, 6 failing while loading / transpiling): nothing escapes, every input is read, the final valid input prints what a fresh loop prints (closed, enumerated)'))
 	if only:
 		jobs = [j for j in jobs if j.obligation in only or j.obligation.split('.')[0] in only]
 	rep.functions = ['SyntaxParserOfLark.__load_entry', 'CacheProvider.get (disabled)', 'Procedure.exec/__emit/__run_action', 'ErrorRender.render/__build_stacktrace/__build_quotation/__build_message']
 	rep.bounds = {'exceptions': 'finite sets listed in the obligations', 'tree': 'one parsed three-statement module'}
 	rep.assumptions = ['O1: Lark is a stub whose contract is "parse may raise any exception"; O4/O5 run the real Lark parser', 'the error renderer reads the module file through the in-memory file stub of harness.c16_spans']
-	rep.outside = ['input texts outside the two generated families (ill-typed template fillings, single token mutations of three programs)', 'modules on disk through the whole pipeline (the kernels O1 cover the on-disk branch of the parser wrapper)', 'termination beyond "every generated program returned"']
+	rep.outside = ['input texts outside the two generated families (ill-typed template fillings, single token mutations of three programs)', 'termination beyond "every generated program returned"']
 	sel = [c for c in closed if not only or c[0] in only or c[0].split('.')[0] in only]
 	handle = rep.start_closed_many(sel)
 	rep.run_jobs(jobs)
